@@ -57,6 +57,32 @@ func (c Case) goal() string {
 	return g
 }
 
+// boundShapes: argument shapes that are variables bound before the goal runs (a list whose spine goes through a
+// bound variable is not the same Go value as the list written out).
+const boundPrefix = "LB = [a|TB0], TB0 = [b], PB = [a|TB1], TB1 = [b|_], SB = \"ab\", FB = f(XB), XB = 1, "
+
+// query: the goal with its unbound arguments named, followed by a traversal of whatever they were bound to
+// (a result that cannot be walked is as bad as a call that does not return).
+func (c Case) query() string {
+	args := append([]string{}, c.Args...)
+	var outs []string
+	for k, a := range args {
+		if a == "_" {
+			args[k] = fmt.Sprintf("O%d", k)
+			outs = append(outs, args[k])
+		}
+	}
+	g := quoteName(c.Pred)
+	if len(args) > 0 {
+		g += "(" + strings.Join(args, ", ") + ")"
+	}
+	q := "current_output(S0), " + boundPrefix + g
+	if len(outs) > 0 {
+		q += ", (ground(t(" + strings.Join(outs, ", ") + ")) -> true ; true)"
+	}
+	return q + "."
+}
+
 // Reply of a worker for one case.
 type Reply struct {
 	Violation string `json:"violation,omitempty"`
@@ -185,7 +211,7 @@ func execute(c Case) Reply {
 			}
 		}
 		// S0 is an open stream term for the 'stream' shape
-		q := "current_output(S0), " + c.goal() + "."
+		q := c.query()
 		sols, err := i.P.QueryContext(sut.NewStepCtx(stepBudget, nil), q)
 		if err != nil {
 			return Reply{Class: "parse_error"}
@@ -232,6 +258,9 @@ func TestWorker(t *testing.T) {
 	debug.SetMemoryLimit(memLimit)
 	if dir := os.Getenv("VERIF_WORKDIR"); dir != "" {
 		_ = os.Chdir(dir)
+		for name, text := range loadFiles {
+			_ = os.WriteFile(name, []byte(text), 0o644)
+		}
 	}
 	in := bufio.NewReaderSize(os.Stdin, 1<<20)
 	out := bufio.NewWriter(os.Stdout)
@@ -405,6 +434,8 @@ var tokens = []string{
 	"f(", "f(a", "f(a,", "f(a)", "[a", "[a,", "[a|", "[a|b", "[a|b]", "{a", "- (", "-(", "a:-", ":- a", "a:-b", "X = [-", "X = {-", "[-", "{-",
 	"é", "日本", "😀", "\x00", "\xff", "\xc3", "\u00a0", "\u2028", "\ufeff",
 	"end_of_file", "op(200,xfx,a)", "halt", "X = 1", "foo(X) :- bar(X)", ":- dynamic(foo/1)", "a --> b",
+	// directives that load the files of the scratch directory (files that load or include themselves or each other)
+	":- include(selfinc).\n", ":- ensure_loaded(selfload).\n", ":- consult(selfc).\n", ":- include(inc_a).\n", ":- ensure_loaded(mutual_a).\n", ":- include(plain).\n", ":- include(bad).\n", ":- initialization(consult(selfinc)).\n", "consult(selfinc)", "[selfload]",
 	// digits, letters and symbols outside ASCII
 	"٣", "３", "१२", "n(٣)", "X = ３", "٣.٣", "0'٣", "Ⅷ", "²", "ǅ", "ʰ", "€", "∀", "X is ٣ + 1",
 }
@@ -439,6 +470,8 @@ func genText() *rapid.Generator[Case] {
 
 var shapes = []string{
 	"_", "a", "''", "[]", "0", "1", "-1", "255", "256", "2147483648", "9223372036854775807", "-9223372036854775808",
+	"LB", "PB", "SB", "FB",
+	"selfload", "selfc", "selfinc", "mutual_a", "inc_a", "plain", "bad", "'selfinc.pl'", "[selfinc]", "[plain, selfload]", "no_such_file",
 	"1.5", "-0.0", "1.0e308", "f(a)", "f(_)", "[a,b]", "[a|_]", "[a|b]", "\"ab\"", "[97,98]", "[a,_]", "user_input", "user_output", "S0",
 	"true", "(a,b)", "(a,1)", "a/1", "foo/0", "foo/(-1)", "a-1", "[a-1,b-2]", "[x=_]", "[quoted(true)]", "'1'", "read", "write", "append", "xfx", "fy", "200", "1200", "1201",
 	"[foo/1]", "{x}", "- 1", "[_|_]", "end_of_file", "text", "binary", "[type(binary)]", "[alias(user_input)]", "max_integer", "bounded", "double_quotes", "codes",
@@ -451,6 +484,19 @@ var shapes = []string{
 type proc struct {
 	Name  string
 	Arity int
+}
+
+// loadFiles exist in the worker's scratch directory: files that load, consult or include themselves or each other.
+var loadFiles = map[string]string{
+	"selfload.pl": ":- ensure_loaded(selfload).\nsl.\n",
+	"selfc.pl":    ":- consult(selfc).\nsc.\n",
+	"selfinc.pl":  ":- include(selfinc).\nsi.\n",
+	"mutual_a.pl": ":- ensure_loaded(mutual_b).\nma.\n",
+	"mutual_b.pl": ":- ensure_loaded(mutual_a).\nmb.\n",
+	"inc_a.pl":    ":- include(inc_b).\nia.\n",
+	"inc_b.pl":    ":- include(inc_a).\nib.\n",
+	"plain.pl":    "pl(1).\npl(2).\n",
+	"bad.pl":      "foo(.\n",
 }
 
 // preludes: state changes a program may have made before the goal runs.
@@ -539,7 +585,14 @@ func TestProp(t *testing.T) {
 		}
 		c := Case{Kind: "goal", Pred: pr.Name}
 		for k := 0; k < pr.Arity; k++ {
-			c.Args = append(c.Args, shapes[u(t, len(shapes), "shape")])
+			switch w := u(t, 20, "shapeclass"); {
+			case pr.Arity >= 2 && w >= 15: // an unbound argument (most predicates of several arguments have an output)
+				c.Args = append(c.Args, "_")
+			case w >= 12 && w < 15: // a variable bound beforehand
+				c.Args = append(c.Args, []string{"LB", "PB", "SB", "FB"}[u(t, 4, "bound")])
+			default:
+				c.Args = append(c.Args, shapes[u(t, len(shapes), "shape")])
+			}
 		}
 		if u(t, 4, "pre") == 0 {
 			for k, n := 0, 1+u(t, 2, "npre"); k < n; k++ {
